@@ -45,6 +45,46 @@ def run(ctx):
     _r4_bases(ctx)
     _r5_r6(ctx)
     exact_label_rule(ctx)
+    _r8_opt_removed(ctx)
+
+
+def _r8_opt_removed(ctx):
+    """the decoder folds the OPT pseudo-record into the message's EDNS fields; what it returns as the additional section has had
+    every OPT record removed (retain(rrtype != OPT) on the path to the result), so that the encoder — which appends its own OPT —
+    cannot emit two"""
+    P = ctx.P
+    fns = [f for f in P.bodies if f.endswith("PktParser::<'l>::get_dns")]
+    if not fns:
+        if ctx.config in ("default", "dns"):
+            ctx.bad("R8", "anchor:get_dns", "", "message decoder not found")
+        return
+    b = P.bodies[fns[0]]
+    ctx.saw(b)
+    T = terms(P, b)
+    cfg = cfg_of(b)
+    aggs = [(bb, idx, st) for _, bb, idx, st in find_aggs(P, "dns::dnspkt::DNSPkt", [b])]
+    ctx.floor("R8", "decoded message constructions", len(aggs), 1)
+    filt = []
+    for bb, tm in b.calls():
+        if (callee_name(tm) or "").endswith("Vec::<T, A>::retain") or (callee_name(tm) or "").endswith("Vec::<T>::retain"):
+            cid = closure_def_of_term(T.call_args(bb)[1])
+            cb = P.bodies.get(cid) if cid else None
+            if cb is None:
+                continue
+            Tc = terms(P, cb)
+            for b2, t2 in cb.calls():
+                n2 = callee_name(t2) or ""
+                if n2.endswith("::ne") and t2["dest"] == (0,):
+                    a = [norm(x) for x in Tc.call_args(b2)]
+                    opt = any(x[0] == "const" and len(x) > 2 and str(x[2]).endswith("RR_OPT") or (x[0] == "const" and x[1] == tables.RR_OPT if hasattr(tables, "RR_OPT") else False) for x in a)
+                    onty = any(any(y[0] == "field" and y[2] == "rrtype" for y in subterms(x)) for x in a)
+                    if opt and onty:
+                        filt.append(bb)
+    for bb, idx, st in aggs:
+        t = norm(T.rvalue(st["rv"], bb, idx))
+        ctx.check(any(cfg.dominates(f, bb) for f in filt), "R8", "every-OPT-record-leaves-the-additional-section", ctx.where(b, st["sp"]),
+                  "the decoded message must be built after `additional.retain(|rr| rr.rrtype != RR_OPT)`: an OPT record left among the "
+                  "ordinary records is written again next to the encoder's own OPT and the message no longer decodes to itself")
 
 
 def _arm_blocks(cfg, targets, stop=()):
